@@ -2,7 +2,7 @@
 """Regenerates DESIGN.md §9.7 (table of seeded changes) from /verif/seeded/*/meta.json."""
 import json,glob,os
 rows=[]
-for d in sorted(glob.glob('/verif/seeded/*')):
+for d in sorted(glob.glob('/verif/seeded/c[0-9]*')):
     m=json.load(open(d+'/meta.json'))
     n=os.path.basename(d)
     f=lambda x,k: (str(x or ''))[:k].replace('\n',' ').replace('|','/')
